@@ -310,7 +310,7 @@ def check_pdu_count(prog, r):
                     arm = next(iter(l))
             if arm == "?" and container == "MRT":
                 arm = "Mp"
-            used = _count_used(fv, bi, t)
+            used = _count_used(fv, bi, t) or _per_frame(fv, bi, t)
             if arm == "PeerUp":
                 r.ok("%s %s: OPEN messages are encoded as one frame each" % (container, arm))
             elif used:
@@ -319,6 +319,22 @@ def check_pdu_count(prog, r):
                 r.fail(fv.name, "pdu-count-ignored:" + arm, "the %s %s record holds exactly one BGP PDU, but the UPDATE is re-encoded with this codec's own limits and the number of frames encode_to produced is discarded: "
                        "an update that splits (received with extended messages, or grown by re-encoding) puts several PDUs into one record" % (container, arm), fv.loc(bi))
     r.floor("embedded PDU encodings", n, 4)
+
+
+def _per_frame(fv, bi, t):
+    """The buffer filled by encode_to is copied into the record frame by frame: every put_slice that follows copies a
+    piece obtained with split_at (whose length comes from the PDU's own header), never the whole buffer."""
+    rend = Renderer(fv, depth=30, through_names=True)
+    srcs = []
+    for b2, t2 in fv.calls(re.compile(r".*BufMut::put_slice$")):
+        if b2 not in fv.reach_after(bi):
+            continue
+        e = rend.operand(t2["args"][1], 30)
+        calls = expr_calls(e)
+        vs = expr_vars(e)
+        if "buf" in vs or any(c.endswith("BytesMut::as_ref") or c.endswith("AsRef::as_ref") for c in calls) or "pdu" in vs or any(c.endswith("split_at") for c in calls):
+            srcs.append((b2, any(c.endswith("split_at") for c in calls)))
+    return bool(srcs) and all(sp for _, sp in srcs)
 
 
 def _count_used(fv, bi, t):
